@@ -1517,14 +1517,18 @@ func TestProp(t *testing.T) {
 	cells = 0
 	for si := range deepShapes {
 		failed := false
-		for _, d := range []int{0, 1, 2, 3, 8, 50, 250, 332, 333, 334, 499, 500, 501, 998, 999, 1000, 1001, 1500} {
+		depths := []int{0, 1, 2, 3, 8, 50, 250, 332, 333, 334, 499, 500, 501, 998, 999, 1000, 1001, 1500}
+		if r.Thorough() {
+			depths = append(depths, 5000)
+		}
+		for _, d := range depths {
 			if r.Mine(cells) && !failed {
 				failed = !r.Check(run(r, Case{Kind: 0, N: 3, Shape: si + 1, Depth: d}, deepProg(si+1, d)))
 			}
 			cells++
 		}
 	}
-	r.Subspace("6 shapes (nested loops; break in the innermost of nested loops; break under nested emitting ifs / else-if branches / silent ifs; loops and ifs alternating) x 18 nesting depths 0..1500", cells, true)
+	r.Subspace("6 shapes (nested loops; break in the innermost of nested loops; break under nested emitting ifs / else-if branches / silent ifs; loops and ifs alternating) x 18 nesting depths 0..1500 (thorough: and 5000)", cells, true)
 
 	// (C) Render and Exec take any hctx.Context, not only a *plush.Context. Only the first failure is reported.
 	cells = 0
